@@ -2,6 +2,7 @@ package specification
 
 import (
 	"fmt"
+	"strings"
 
 	"github.com/getkin/kin-openapi/openapi3"
 )
@@ -40,7 +41,7 @@ func NewSecurityScheme(s *openapi3.SecurityScheme) (*SecurityScheme, error) {
 		Name: s.Name,
 		In:   SecuritySchemeIn(s.In),
 
-		Scheme:       s.Scheme,
+		Scheme:       strings.ToLower(s.Scheme), // HTTP authentication scheme names are case-insensitive (RFC 7235)
 		BearerFormat: s.BearerFormat,
 
 		Flows: flows,
